@@ -42,6 +42,7 @@ def main():
     if "--tier" in args:
         tier = args[args.index("--tier") + 1]
     items = []
+    outside = []
     for p in sorted(glob.glob(os.path.join(VERIF, "mutants", "*.patch"))):
         name = os.path.basename(p)[:-6]
         props = name.split("-")[0].split("+")
@@ -51,6 +52,11 @@ def main():
         m = os.path.join(d, "meta.json")
         if os.path.exists(p) and os.path.exists(m):
             meta = json.load(open(m))
+            if meta.get("expected") == "outside_property":
+                # confirmed change whose effect was judged to lie outside the property as stated
+                # (see its meta.json / DESIGN.md 9.6): kept for the record, the check must stay silent
+                outside.append(("seeded/" + os.path.basename(d), p, [meta["property"]]))
+                continue
             items.append(("seeded/" + os.path.basename(d), p, meta.get("caught_by") or [meta["property"]]))
     # negative controls: behaviour-preserving refactors, every check must stay silent
     controls = []
@@ -91,6 +97,20 @@ def main():
             print("%-40s %-5s %-12s %.0fs %s" % (name, prop, status, dt, (first[0][:160] if first else "")))
             if status.startswith("ERROR"):
                 print(out[-1500:])
+            results.append({"mutant": name, "property": prop, "status": status, "seconds": round(dt, 1)})
+    for name, patch, props in ([] if "--refactors" in args else [o for o in outside if not only or only in o[0]]):
+        fresh_copy(repo)
+        r = sh("patch -p1 --no-backup-if-mismatch < %s" % patch, cwd=repo)
+        if r.returncode != 0:
+            print("%-40s PATCH DOES NOT APPLY" % name)
+            ok_all = False
+            continue
+        for prop in props:
+            rc, out, dt = run_check(prop, repo, "mut", tier)
+            status = "OUTSIDE-SILENT" if rc == 0 else ("OUTSIDE-REPORTED" if rc == 1 else "ERROR(rc=%d)" % rc)
+            if rc == 2:
+                ok_all = False
+            print("%-40s %-5s %-12s %.0fs" % (name, prop, status, dt))
             results.append({"mutant": name, "property": prop, "status": status, "seconds": round(dt, 1)})
     ALL = ["C01", "C02", "C03", "C05", "C07", "C08", "C09", "C11", "C12", "C13", "C14", "C15", "C18", "C19"]
     for name, patch in controls:
